@@ -120,13 +120,25 @@ func (cl *wsClient) run() {
 	}
 }
 
+// wsBigFrom: cases from this index on (added after seeded change C15-8) run with history length
+// 800 or 1500 and a hub that already retains several hundred to more than a thousand messages
+// when the first client connects: the real handler, the real socket writer goroutine and a real
+// client that reads promptly must get through the whole replay and go on to the live events.
+const wsBigFrom = 240
+
 func wsCases(c *fw.Ctx) {
-	c.Cases("ws", 240, func(i int, r *fw.Rand) { wsCase(c, i, r) })
+	c.Cases("ws", wsBigFrom+48, func(i int, r *fw.Rand) { wsCase(c, i, r) })
 }
 
 func wsCase(c *fw.Ctx, idx int, r *fw.Rand) {
 	n := histLens[idx%len(histLens)]
 	faulty := []string{"abrupt", "stop-reading", "close-frame"}[(idx/len(histLens))%3]
+	preLo, preHi := 0, n+3
+	if idx >= wsBigFrom {
+		n = []int{800, 1500}[idx%2]
+		faulty = []string{"abrupt", "close-frame"}[(idx/2)%2]
+		preLo, preHi = 900, n+300
+	}
 	conf := sut.DefaultConf()
 	conf.Web.MonitorHistory = n
 	env, err := sut.NewWebEnv(conf, "mem")
@@ -315,7 +327,7 @@ func wsCase(c *fw.Ctx, idx int, r *fw.Rand) {
 	ok, dump := c.Within(3*budget(), func() {
 		hub.AddListener(witness)
 		hub.Sync()
-		for k, pre := 0, r.Range(0, n+3); k < pre; k++ {
+		for k, pre := 0, r.Range(preLo, preHi); k < pre; k++ {
 			random()
 		}
 		stage.Store("events")
@@ -435,6 +447,9 @@ func wsCase(c *fw.Ctx, idx int, r *fw.Rand) {
 			if eqEv(got, exp) {
 				matched = true
 				c.Count("ws_history_events_replayed", int64(hist))
+				if hist > 500 {
+					c.Count("ws_clients_replayed_over_500", 1)
+				}
 				break
 			}
 			if j == cl.minJoin {
